@@ -29,4 +29,8 @@ var VerifShim = map[string]any{
 	"G1Jac.unsafeFromJacExtended": func(p *G1Jac, q *g1JacExtended) *G1Jac { return p.unsafeFromJacExtended(q) },
 	"G1Jac.mulBySeed": func(p *G1Jac, q *G1Jac) *G1Jac { return p.mulBySeed(q) },
 	"G1Affine.fromJacExtended": func(p *G1Affine, q *g1JacExtended) *G1Affine { return p.fromJacExtended(q) },
+	"fn._innerMsmG1": _innerMsmG1,
+	"fn.partitionScalars": partitionScalars,
+	"fn.computeNbChunks": computeNbChunks,
+	"fn.lastC": lastC,
 }
